@@ -86,7 +86,7 @@ TReset ==
      IN /\ disk' = ds /\ disk0' = ds /\ pre' = ds
         /\ dirs' = [v \in 1..e.nvol |-> AbsTree(ds[v])]
         /\ dur' = [v \in 1..e.nvol |-> {}]
-        /\ minfo' = [v \in 1..e.nvol |-> [f |-> -1, n |-> -1, free |-> 0, under |-> FALSE]]
+        /\ minfo' = [v \in 1..e.nvol |-> [f |-> -1, n |-> -1, free |-> 0, under |-> FALSE, stale |-> FALSE]]
         /\ hid' = e.hid
         /\ lenient' = (e.chk = "listing")
         /\ lim' = [d |-> e.lim[1], f |-> e.lim[2], v |-> e.lim[3]]
@@ -289,7 +289,8 @@ TCrashMount ==
 
 \* ------------------------------------------------------------------ Return
 PanicProp(op) ==
-  IF flt THEN "C11"
+  IF flt \/ fltd THEN "C11"
+  ELSE IF ("reent" \in DOMAIN call.a /\ call.a.reent) \/ ("spec" \in DOMAIN call.a /\ "reent" \in DOMAIN call.a.spec /\ call.a.spec.reent) THEN "C08"      \* a call made from inside the callback panicked instead of returning LockError
   ELSE IF call.vol # 0 /\ disk[call.vol].g.fat32 /\ minfo[call.vol].f >= 0 /\ minfo[call.vol].f # minfo[call.vol].free THEN "C16"
   ELSE IF op \in {"read", "write", "seek_start", "seek_end", "seek_cur", "length", "offset", "eof"} THEN "C01"
   ELSE IF op \in {"flush", "close_file"} THEN "C02"
@@ -386,6 +387,11 @@ InfoTags(v, wrote) ==
     \cup (IF d.info.n # m.n /\ ~(d.info.n = -1 \/ d.info.n \in Valid(d.g))
           THEN {<<"C16", "InfoTruthful", "next-free hint outside the volume">>} ELSE {})
 
+\* C16, last sentence: a wrong record found at mount must not make an operation fail
+StaleTags(v, r, op) ==
+  IF v # 0 /\ v \in DOMAIN minfo /\ minfo[v].stale /\ r.k = "err" /\ ~fltd
+  THEN {<<"C16", "InfoHarmless", op \o " failed (" \o r.e \o ") on a volume whose information sector was wrong at mount, although the model admits no failure">>} ELSE {}
+
 \* capacity available to a write on the pre-call medium (C05)
 RoomFor(pd, f) ==
   LET st == FileStart(pd, f)
@@ -411,7 +417,10 @@ TRet ==
         /\ LET refs == OpenVolumeRefs(v, v # 0) IN
            IF Admissible(refs, r)
            THEN /\ IF ok THEN OpenVolumePost(v, r.v.h) ELSE UNCHANGED apiVars
-                /\ minfo' = IF ok THEN [minfo EXCEPT ![v] = [f |-> disk[v].info.f, n |-> disk[v].info.n, free |-> Cardinality(FreeSet(disk[v])), under |-> FALSE]] ELSE minfo
+                /\ minfo' = IF ok THEN [minfo EXCEPT ![v] = [f |-> disk[v].info.f, n |-> disk[v].info.n, free |-> Cardinality(FreeSet(disk[v])), under |-> FALSE,
+                                                           \* the record found at mount is wrong: count not the number of free entries, or hint not a free cluster
+                                                           stale |-> disk[v].g.fat32 /\ ((disk[v].info.f >= 0 /\ disk[v].info.f # Cardinality(FreeSet(disk[v])))
+                                                                                        \/ disk[v].info.f = -2 \/ (disk[v].info.n # -1 /\ disk[v].info.n \notin FreeSet(disk[v])))]] ELSE minfo
                 /\ viol' = Report((IF ok THEN NewHandleTags(r.v.h) ELSE {}) \cup StateChecks(op, e.obs, e.fateq))
            ELSE /\ UNCHANGED apiVars /\ minfo' = minfo
                 /\ viol' = Report({<<ResProp(op, refs, r), "Result", op \o ":" \o r.k \o ":" \o r.e>>})
@@ -497,7 +506,7 @@ TRet ==
                 /\ dur' = IF ok /\ ~missing /\ a.mode \in {"Truncate", "CreateOrTruncate"}
                           THEN [dur EXCEPT ![v] = {x \in @ : ~(x.dir = id /\ x.n = a.nm)}] ELSE dur
            ELSE /\ UNCHANGED apiVars /\ dur' = dur
-                /\ viol' = Report({<<ResProp(op, refs, r), "Result", op \o ":" \o a.mode \o ":" \o r.k \o ":" \o r.e>>})
+                /\ viol' = Report({<<ResProp(op, refs, r), "Result", op \o ":" \o a.mode \o ":" \o r.k \o ":" \o r.e>>} \cup (IF refs = {} THEN StaleTags(v, r, op) ELSE {}))
         /\ minfo' = minfo
      \/ /\ op = "read"
         /\ LET refs == FileRefs(a.f) IN
@@ -539,7 +548,8 @@ TRet ==
                         /\ viol' = Report(StateChecks(op, e.obs, e.fateq))
                    ELSE /\ UNCHANGED apiVars /\ dur' = dur
                         /\ viol' = Report({<<IF r.k = "err" /\ r.e \notin SpaceErrs THEN "C01" ELSE "C05", "Result",
-                                             "write:" \o r.k \o ":" \o r.e \o (IF fits THEN ":fits" ELSE ":does-not-fit")>>})
+                                             "write:" \o r.k \o ":" \o r.e \o (IF fits THEN ":fits" ELSE ":does-not-fit")>>}
+                                           \cup (IF fits THEN StaleTags(v, r, op) ELSE {}))
         /\ minfo' = minfo
      \/ /\ op \in {"seek_start", "seek_end", "seek_cur"}
         /\ LET refs == SeekRefs(a.f, op, a.u) IN
